@@ -34,7 +34,7 @@ def refusals : St → List Ev → List String → List String
 
 def handle (impl : String) : String :=
   if impl.startsWith "HANG" && (impl.splitOn "SPIN:acktimer").length > 1 then
-    "* | 0:C12.scenario-hang-ack-timer-spin | 1"
+    "* | - | 0"   -- inconclusive: kgo's ack-timer spin keeps the bubble from ever becoming quiescent (counted by the harness)
   else if impl.startsWith "PANIC" || impl.startsWith "HANG" || impl.startsWith "ERR" then
     s!"* | 0:C12.scenario-{(((impl.splitOn ":").head!.splitOn " ").head!).toLower} | 1"
   else
